@@ -66,7 +66,7 @@ PROPS = {
     'C02': dict(fams=['crud', 'versions', 'rebase_pairs', 'intra', 'suffix', 'capacity', 'big', 'deep', 'hash_placement', 'fault', 'par'],
                 views=['obs'], oracles=[], pyref=True, filt=lambda k, o: k == 'R' and o in ROOT_OPS,
                 key=lambda ops: any(o.startswith('hash') for o in ops)),
-    'C03': dict(fams=['hash_placement', 'rebase_pairs', 'intra', 'versions', 'crud', 'fault', 'par'], views=['obs', 'memo'],
+    'C03': dict(fams=['hash_placement', 'rebase_pairs', 'intra', 'versions', 'crud', 'fault', 'par'], views=['obs'],
                 oracles=['memo'], pyref=True, filt=lambda k, o: k == 'R' and o in ROOT_OPS, twin='hash',
                 key=lambda ops: sum(o.startswith('hash') for o in ops) >= 2),
     'C04': dict(fams=['versions', 'rebase_pairs', 'hash_placement', 'intra'], views=['obs'], oracles=['isolation', 'memo'],
@@ -104,7 +104,7 @@ PROPS = {
     'C15': dict(fams=['invalid_args', 'bulk', 'capacity', 'deep', 'codec', 'builder', 'crud', 'versions'], views=['obs'],
                 oracles=['wellformed', 'error_preserves'], pyref=False, filt=lambda k, o: False, errors_only=True,
                 key=lambda ops: True),
-    'C16': dict(fams=['par', 'fault'], views=['obs'], oracles=['par'], pyref=True, par_only=True,
+    'C16': dict(fams=['par', 'fault'], views=['obs'], oracles=['par'], pyref=True, par_only=True, twin='fault',
                 filt=lambda k, o: k == 'R' and o in ('par_hash', 'par_mix'),
                 key=lambda ops: any(o.startswith('par_') for o in ops), repeat=True),
     'C17': dict(fams=['builder', 'builder_nodes'], views=['obs'], oracles=['builder'], pyref=True,
@@ -409,18 +409,8 @@ def pyref_findings(prop, text, trace):
     if spec.get('par_only'):
         # C16: a parallel result that differs from the reference counts only when the sequential root computations
         # of the same history are right (otherwise hashing as such is broken: C02's business)
-        opsl = [l for l in text.splitlines()[1:] if l and not l.startswith('#')]
-        ff = next((k + 1 for k, o in enumerate(opsl) if o.startswith('fault ')), None)
-        if ff is not None:
-            # fault histories: an abandoned root computation must not poison later ones. Roots that are wrong
-            # after the first fault count, unless hashing was already wrong before it (then it is C02's business)
-            if any(m.op < ff for m in mm if (m.op_text or '').split()[:1] == ['hash']):
-                return out
-            for m in mm:
-                if m.op > ff and (m.op_text or '').split()[:1] and (m.op_text or '').split()[0] in ROOT_OPS and not (m.actual or '').endswith(' fault'):
-                    out.append(oracles.Finding(m.op, 'after an abandoned root computation `%s` answers `%s`, expected `%s`' % (m.op_text, (m.actual or '')[:120], (m.predicted or '')[:120])))
-                    break
-            return out
+        if any(l.startswith('fault ') for l in text.splitlines()[1:]):
+            return out          # fault histories are judged by their twin without the fault (twin_findings)
         seq_bad = any((m.op_text or '').split()[:1] == ['hash'] for m in mm)
         if seq_bad:
             return out
@@ -449,6 +439,9 @@ def oracle_findings(prop, text, trace):
             fs = oracles.ORACLES[name](cfg, ops, steps)
         except Exception as e:
             fs = [oracles.Finding(0, 'oracle %s crashed on this trace: %r' % (name, e))]
+        if prop == 'C04' and name == 'memo':
+            # isolation: only a memo that went wrong in a handle the operation did NOT target is this property's business
+            fs = [f for f in fs if 0 < f.op <= len(ops) and f.msg.split(':', 1)[0] not in oracles.targets(ops[f.op - 1])]
         if oops is not None and name in ('canonical', 'memo', 'unchanged'):
             # these two audit every state; for this property only the states right after its operations count
             fs = [f for f in fs if 0 < f.op <= len(ops) and ops[f.op - 1].split()[0] in oops]
@@ -489,7 +482,7 @@ def twin_text(text, mode):
     """(transformed history, [original op index per transformed op], [is the op itself transformed])"""
     lines = [l for l in text.strip().split('\n') if not l.startswith('#')]
     cfg, ops = lines[0], lines[1:]
-    if any(o.startswith('fault') for o in ops):
+    if any(o.startswith('fault') for o in ops) and mode != 'fault':
         return None
     last = {}
     if mode == 'hash':
@@ -515,6 +508,12 @@ def twin_text(text, mode):
             if (p[0] == 'hash' and last.get(p[1]) != i) or p[0] in ('par_hash', 'par_mix'):
                 touched = True
                 continue
+        elif mode == 'fault':
+            if p[0] == 'fault':
+                touched = True
+                continue
+            if i > 0 and ops[i - 1].startswith('fault '):
+                ch = True          # the operation the fault is aimed at: it may be abandoned, its answer is not compared
         out.append(o)
         mapping.append(i)
         changed.append(ch)
@@ -536,10 +535,13 @@ def twin_compare(mode, orig_trace, twin_trace, mapping, changed, ops):
         ra, rb = ao['R'][0].split(' ', 2)[2], bo['R'][0].split(' ', 2)[2]
         if ra in ('panic', 'abort', 'timeout') or rb in ('panic', 'abort', 'timeout'):
             return None
+        if mode == 'fault' and changed[k]:
+            continue
         if not changed[k] and ra != rb:
             return oracles.Finding(i + 1, '`%s` answers `%s`, but `%s` in the same history %s' % (
                 ops[i][:80], ra[:120], rb[:120], {'hash': 'with the earlier root requests removed', 'rebase': 'without the rebases',
-                                                  'intra': 'with a plain flush in place of the self-deduplication'}[mode]))
+                                                  'intra': 'with a plain flush in place of the self-deduplication',
+                                                  'fault': 'without the injected fault'}[mode]))
         if changed[k] and mode == 'intra' and ra != rb:
             return oracles.Finding(i + 1, 'self-deduplication answered `%s` where a flush answers `%s`' % (ra[:120], rb[:120]))
         if ao.get('O', []) != bo.get('O', []):
@@ -548,7 +550,7 @@ def twin_compare(mode, orig_trace, twin_trace, mapping, changed, ops):
             return oracles.Finding(i + 1, 'after `%s` the handles show `%s`, but `%s` in the same history %s' % (
                 ops[i][:80], (la[j] if j < len(la) else '<none>')[:140], (lb[j] if j < len(lb) else '<none>')[:140],
                 {'hash': 'with the earlier root requests removed', 'rebase': 'without the rebases',
-                 'intra': 'with a plain flush in place of the self-deduplication'}[mode]))
+                 'intra': 'with a plain flush in place of the self-deduplication', 'fault': 'without the injected fault'}[mode]))
     return None
 
 
